@@ -4,5 +4,5 @@ CONSTANTS
   Scenarios <- ScenQ
   KOff <- KOffQ
   KIn <- KInQ
-INVARIANTS WellFormedInv NodeInv RangeInv ContinuityInv LinearInv MarginInv FirstHitInv DeepestInv SubgridContinuityInv ConvInv EmitSc
+INVARIANTS WellFormedInv NodeInv RangeInv ContinuityInv LinearInv MarginInv FirstHitInv DeepestInv SubgridContinuityInv ConvInv EmptyListInv EmptyListWitness SpellingInv SiblingInv EmitSc
 CHECK_DEADLOCK FALSE
